@@ -5,7 +5,7 @@ From Coq Require Import Lia List.
 From MW Require Import Model.Base Model.F64 Model.Num Model.Datum Model.TransformDef Model.Transform
   Model.VmTypes Model.Heap Model.Gc Model.VmBase Model.Compile Model.Vm
   Proofs.GcProofs Proofs.SymtabProofs Proofs.VmProofs0 Proofs.TailProofs Proofs.EnvProofs
-  Proofs.FlatProofs Proofs.KeepCalc Proofs.KeepRun
+  Proofs.FlatProofs Proofs.FlatCompile Proofs.KeepCalc Proofs.KeepCompile Proofs.KeepRun
   Proofs.NoPanicBase Proofs.NoPanicPrims Proofs.NoPanicPrims2 Proofs.NoPanicPrims3 Proofs.NoPanicPutCell
   Proofs.NoPanicListVec Proofs.NoPanicCompile.
 Open Scope N_scope.
@@ -775,3 +775,134 @@ Proof.
   - (* VARARG *) apply (npost_ipl s _ T_ Hi). pose proof np_vararg_collect as HV. np_go.
 Qed.
 
+
+(* ------------------------------------------------------------------ one instruction *)
+Definition step_post (s : vm) (r : res bool) : Prop :=
+  match r with
+  | ROk _ s' => wfm s' /\ grow0 s s' /\ lamcell s' (fst (ip s'))
+  | RErr _ _ s' => wfm s' /\ grow0 s s' /\ ipge s'
+  | RPanic k => okp k
+  | RNoFuel => True
+  end.
+
+Theorem np_run_one s : wfm s -> lamcell s (fst (ip s)) -> J s -> finv s -> step_post s (run_one ob s).
+Proof.
+  intros W Hl Hj F. rewrite run_one_eq. unfold bindM.
+  pose proof (np_read_opcode s W Hl) as H1. pose proof (read_opcode_spec s F I) as H2.
+  pose proof (kp_read_opcode s Hj) as H3.
+  destruct (read_opcode s) as [op s1|e m s1|k|]; cbn [step_post post jpost] in *; auto.
+  - destruct H1 as (W1 & G1 & Hi1). destruct H2 as [F1 Hm].
+    pose proof (np_step_body op s1 W1 Hi1 H3 F1 Hm) as H.
+    destruct (step_body op s1) as [b s2|e m s2|k|]; cbn [npost0 step_post] in *; auto.
+    + destruct H as (W2 & G2 & HL). split; [exact W2|split; [eapply grow0_trans; eassumption|exact HL]].
+    + destruct H as (W2 & [G2 Gi]). split; [exact W2|split; [eapply grow0_trans; eassumption|auto]].
+  - destruct H1 as [-> Hi]. split; [exact W|split; [apply grow0_refl|exact Hi]].
+Qed.
+End Run.
+
+(* ------------------------------------------------------------------ stack_trace (the error path) *)
+Definition tr_ok {X} (o : out X) : Prop :=
+  match o with Ok _ => True | Err _ => False | Panic k => okp k | NoFuel => True end.
+
+Lemma back_op (bc : list vcell) : (exists o, list_get bc 0 = Some (VOp o)) ->
+  forall k i, i <= N.of_nat k ->
+  exists o, list_get bc
+    ((fix back (k : nat) (i : N) : N :=
+        match k with
+        | O => i
+        | S k' => if (0 <? i) && negb (match list_get bc i with Some (VOp _) => true | _ => false end)
+                  then back k' (i - 1) else i
+        end) k i) = Some (VOp o).
+Proof.
+  intros H0. induction k as [|k IH]; intros i Hi.
+  - assert (i = 0) by lia. subst i. exact H0.
+  - destruct (0 <? i) eqn:L; cbn [andb].
+    + destruct (list_get bc i) as [v|] eqn:E; cbn [negb].
+      * destruct v; try (apply IH; lia). cbn [negb]. eauto.
+      * apply IH. lia.
+    + apply N.ltb_ge in L. assert (i = 0) by lia. subst i. exact H0.
+Qed.
+
+Lemma stack_trace_ok s : wfm s -> ipge s -> tr_ok (stack_trace s).
+Proof.
+  intros W [Hi (lid & C & L)]. unfold stack_trace, heap_get.
+  destruct (fst (ip s) <? hlen (hp s)); [|reflexivity]. cbn [bind].
+  fold (cell_at (hp s) (fst (ip s))). rewrite C.
+  destruct (tget (lams (st s)) lid) as [l|] eqn:El; [|congruence].
+  destruct (snd (ip s) =? 0) eqn:Z; [apply N.eqb_eq in Z; lia|].
+  match goal with |- tr_ok (match list_get _ ?idx with _ => _ end) => set (ix := idx) end.
+  assert (Hx : exists o, list_get (l_bc l) ix = Some (VOp o)).
+  { apply back_op; [apply (w_head s W lid l El)|]. rewrite N2Nat.id. lia. }
+  destruct Hx as (o & ->).
+  match goal with |- tr_ok (bind (?fr ?k ?a) _) => set (frames := fr); generalize a; generalize k end.
+  intros k. assert (HF : forall acc0, tr_ok (frames k acc0)).
+  { induction k as [|k IH]; intros acc0; [exact I|].
+    unfold frames. cbv beta iota fix. fold frames.
+    pose proof (np_wfm_stack s (N.of_nat k) W) as Hv.
+    destruct (sget s (N.of_nat k)) eqn:Es; try apply IH.
+    cbn [vwf] in Hv. destruct Hv as [(lid2 & C2 & L2) _]. unfold heap_get.
+    destruct (_ <? hlen (hp s)); [|reflexivity]. cbn [bind].
+    match goal with |- context [tget (cells (hp s)) ?a] => fold (cell_at (hp s) a) end. rewrite C2.
+    destruct (tget (lams (st s)) lid2); [apply IH|congruence]. }
+  intros acc0. specialize (HF acc0). destruct (frames k acc0); cbn [bind tr_ok] in *; auto.
+Qed.
+
+(* ------------------------------------------------------------------ run loop, eval *)
+Section Loop.
+Variable ob : N -> M vcell.
+Hypothesis Hob : forall b s, wfm s -> npo s (ob b s) V.
+Hypothesis Hkp : forall b, kp (ob b).
+Hypothesis Hbok : builtins_ok ob.
+
+Definition lpost {X} (r : res X) : Prop :=
+  match r with ROk _ s' => wfm s' | RErr _ _ s' => wfm s' | RPanic k => okp k | RNoFuel => True end.
+
+Lemma wfm_regs s s' : wfm s -> hp s' = hp s -> st s' = st s -> g_slots s' = g_slots s -> g_bind s' = g_bind s ->
+  scap s' = scap s -> (forall i, sget s' i = sget s i \/ sget s' i = VUndef) -> (acc s' = acc s \/ acc s' = VUndef) -> wfm s'.
+Proof.
+  intros W E1 E2 E3 E4 E5 Hs Ha.
+  assert (G : grow0 s s') by (apply grow0_nostore; [exact E2|rewrite E1; auto|lia|rewrite E3; lia]).
+  apply (wfm_nostore s s' W E2 G).
+  - rewrite E1. apply (w_heap s W).
+  - unfold gbind_ok. rewrite E4, E3. apply (w_gbind s W).
+  - intros a. left. rewrite E1. reflexivity.
+  - intros i. destruct (Hs i) as [H|H]; [left; exact H|right; rewrite H; exact I].
+  - destruct Ha as [H|H]; [left; exact H|right; rewrite H; exact I].
+  - intros i v H. left. rewrite <- E3. exact H.
+Qed.
+
+Lemma sget_empty s t p i : stack (with_stack s tempty p) = t -> sget (with_stack s tempty p) i = VUndef.
+Proof. intros _. unfold sget. cbn [stack with_stack]. rewrite tget_tempty. reflexivity. Qed.
+
+Theorem np_run_loop fuel : forall cyc count s, wfm s -> lamcell s (fst (ip s)) -> J s -> finv s ->
+  lpost (run_loop ob fuel cyc count s).
+Proof.
+  induction fuel as [|f IH]; intros cyc count s W Hl Hj F; [exact I|]. cbn [run_loop].
+  pose proof (np_run_one ob Hob s W Hl Hj F) as H1.
+  pose proof (kp_run_one ob Hkp s Hj) as H2.
+  pose proof (finv_step ob s) as H3. pose proof (finv_step_err ob s) as H4.
+  destruct (run_one ob s) as [b s1|e m s1|k|]; cbn [step_post jpost lpost] in *; auto.
+  - destruct H1 as (W1 & G1 & L1). destruct b.
+    + pose proof (np_to_cell (acc s1) s1 W1 (np_wfm_acc s1 W1)) as Hc.
+      destruct (to_cell (acc s1) s1) as [c s2|e m s2|k|]; cbn [npost lpost] in *; auto.
+      * destruct Hc as (W2 & _ & _). apply (wfm_regs s2); try reflexivity; auto.
+        intros i. right. unfold sget. cbn [stack with_stack]. rewrite tget_tempty. reflexivity.
+      * apply Hc.
+    + destruct (match count with Some c => cyc + 1 =? c | None => false end); [exact W1|].
+      apply IH; auto. eapply H3; [exact Hbok|exact F|reflexivity].
+  - destruct H1 as (W1 & G1 & Hi1). pose proof (stack_trace_ok s1 W1 Hi1) as Ht.
+    destruct (stack_trace s1); cbn [tr_ok lpost] in *; auto; try contradiction.
+    apply (wfm_regs s1); try reflexivity; auto.
+    intros i. right. unfold sget. cbn [stack with_stack with_bp with_ep with_acc]. rewrite tget_tempty. reflexivity.
+Qed.
+
+Theorem np_eval fuel e s : wfm s -> J s -> finv s -> lpost (eval ob fuel e s).
+Proof.
+  intros W Hj F. unfold eval.
+  pose proof (np_prepare_eval e s W) as H1. pose proof (kp_prepare_eval e s Hj) as H2.
+  pose proof (prepare_eval_finv e s F I) as H3.
+  destruct (prepare_eval e s) as [u s1|e0 m s1|k|]; cbn [npost0 jpost post lpost] in *; auto.
+  - destruct H1 as (W1 & G1 & L1 & _). apply np_run_loop; auto. apply H3.
+  - apply H1.
+Qed.
+End Loop.
